@@ -19,7 +19,7 @@ CASES = [
     dict(name="reuse-one-name-only", file=CS, expect="R07.2",
          old="            and name[2] in self.field_names\n            and krige_name[1] in self.krige.field_names", new="            and name[2] in self.field_names"),
     dict(name="reuse-wrong-name", file=CS, expect="R07.2", old="            rawkrige, krige_var = self[name[2]], self.krige[krige_name[1]]", new="            rawkrige, krige_var = self[name[1]], self.krige[krige_name[1]]"),
-    dict(name="raw-krige-stored-processed", file=CS, expect="R07.2", old="            self.post_field(rawkrige, name[2], False, save[2])", new="            self.post_field(rawkrige, name[2], post_process, save[2])"),
+    dict(name="raw-krige-stored-processed", file=CS, expect="R07.2", old="            stored = self.post_field(rawkrige, name[2], False, save[2])", new="            stored = self.post_field(rawkrige, name[2], post_process, save[2])"),
     dict(name="krige-var-not-forced", file=CS, expect="R07.2", old='        kwargs["return_var"] = True  # overwrite if given\n', new=""),
     dict(name="pos-detector-looser", file=FB, expect="R07.3", old="        if len(p1) != len(p2):\n            return False\n", new=""),
     dict(name="condsrf-no-update", file=CS, expect="R07.4", old="        self.generator.update(self.model, seed)\n", new=""),
@@ -34,8 +34,14 @@ CASES = [
     dict(name="revert-provenance-of-cached-raw-field", file="field/cond_srf.py", expect="R07.8", old="            and self.krige[krige_name[1]] is self._krige_var_ref\n", new=""),
     dict(name="provenance-never-updated", file="field/cond_srf.py", expect="R07.8", old="            self._krige_var_ref = krige_var if save[2] else None\n", new="            self._krige_var_ref = None\n"),
     dict(name="provenance-updated-on-reuse-too", file="field/cond_srf.py", expect="R07.8",
-         old="            self.post_field(rawkrige, name[2], False, save[2])\n            self._krige_var_ref = krige_var if save[2] else None\n", new="            self.post_field(rawkrige, name[2], False, save[2])\n        self._krige_var_ref = krige_var if save[2] else None\n"),
+         old="            self._krige_var_ref = krige_var if save[2] else None\n            self._raw_krige_ref = stored if save[2] else None\n",
+         new="            self._raw_krige_ref = stored if save[2] else None\n        self._krige_var_ref = krige_var if save[2] else None\n"),
     dict(name="revert-ext-drift-blocks-reuse", file="field/cond_srf.py", expect="R07.9", old='            and kwargs.get("ext_drift") is None\n', new=""),
     dict(name="revert-provenance-only-when-stored", file="field/cond_srf.py", expect="R07.8", old="            self._krige_var_ref = krige_var if save[2] else None\n", new="            self._krige_var_ref = krige_var\n"),
     dict(name="revert-own-copy-of-positions", file="field/base.py", expect="R07.10", old="            self._pos = np.array(pos, dtype=np.double).reshape(self.dim, -1)\n", new="            self._pos = np.asarray(pos, dtype=np.double).reshape(self.dim, -1)\n"),
+    # the state before the repair 5bf918c: the raw kriging field is looked up by its (caller-chosen) name only
+    dict(name="revert-raw-field-provenance", file="field/cond_srf.py", expect="R07.8", old="            and self[name[2]] is self._raw_krige_ref\n", new=""),
+    dict(name="raw-field-remembered-when-not-stored", file="field/cond_srf.py", expect="R07.8", old="            self._raw_krige_ref = stored if save[2] else None\n", new="            self._raw_krige_ref = stored\n"),
+    # the state of 5bf918c: the array handed to post_field is remembered, but post_field stores a reshaped (new) array object -> never equal, no reuse at all
+    dict(name="remember-argument-not-stored-object", file="field/cond_srf.py", expect="R07.8", old="            self._raw_krige_ref = stored if save[2] else None\n", new="            self._raw_krige_ref = rawkrige if save[2] else None\n"),
 ]
